@@ -57,6 +57,9 @@ func enumerate(thorough bool) []caseT {
 			for j := i + 1; j < n; j++ {
 				for _, s1 := range sp {
 					for _, s2 := range sp {
+						if s1.Rare || s2.Rare {
+							continue
+						}
 						reset()
 						holes[i], holes[j] = s1.Render(i), s2.Render(j)
 						add(caseT{Kind: "template", Family: t.Text, Position: fmt.Sprintf("%s#%d+%d", t.Position, i, j), Spellings: []string{s1.Name, s2.Name}, SQL: t.Fill(holes)})
@@ -98,6 +101,9 @@ func enumerate(thorough bool) []caseT {
 			for i := 0; i < n; i++ {
 				for j := i + 1; j < n; j++ {
 					for _, s := range sp {
+						if s.Rare {
+							continue
+						}
 						reset()
 						args[i], args[j] = s.Render(i), s.Render(j)
 						add(caseT{Kind: "form", Family: fam, Position: fmt.Sprintf("%s#%d+%d", fam, i, j), Spellings: []string{s.Name, s.Name}, SQL: c.Pre + f.Apply(args...) + c.Post})
@@ -122,6 +128,9 @@ func enumerate(thorough bool) []caseT {
 			for _, p1 := range pos {
 				for _, p2 := range pos {
 					for _, s := range sp {
+						if s.Rare {
+							continue
+						}
 						inner := applyAt(core[p2.Form], p2.Hole, s.Render(0))
 						outer := applyAt(core[p1.Form], p1.Hole, inner)
 						fam := fmt.Sprintf("%s/%s.%d/%s.%d", c.Name, core[p1.Form].Name, p1.Hole, core[p2.Form].Name, p2.Hole)
